@@ -50,6 +50,10 @@ def setmsg(dev, name, K, elvals, state="Ok"):
                 ch.append(("oneBLOB", (("name", e), ("size", "0"), ("format", ".x")), None))
             elif val == "absent":
                 ch.append(("oneBLOB", (("name", e), ("size", "3"), ("format", ".x")), None))
+            elif val == "wrapped":
+                raw = bytes(range(60))
+                b = base64.b64encode(raw).decode()
+                ch.append(("oneBLOB", (("name", e), ("size", str(len(raw))), ("format", ".w")), b[:40] + "\n" + b[40:72] + "\n  " + b[72:]))
             elif val == "wrong-size":
                 ch.append(("oneBLOB", (("name", e), ("size", "5"), ("format", ".x")), B1))
             elif val == "bad-base64":
@@ -90,10 +94,16 @@ def alphabet(tier):
             A.append(setmsg("D1", "V1", K, (("a", v1), ("z", v2), ("b", v1)), "Ok"))
     A.append(setmsg("D1", "V1", "BLOB", (("a", "empty"),)))
     A.append(setmsg("D1", "V1", "BLOB", (("a", "absent"),)))
+    # payload wrapped into lines, as indiserver sends it
+    A.append(setmsg("D1", "V1", "BLOB", (("a", "wrapped"),)))
     # a valid element followed by one whose declared size / payload is inconsistent
     A.append(setmsg("D1", "V1", "BLOB", (("a", B2), ("b", "wrong-size"))))
     A.append(setmsg("D1", "V1", "BLOB", (("b", "bad-base64"),)))
     A.append(setmsg("D1", "V1", "BLOB", (("a", "bad-size"),)))
+    # empty text (an element without character data): value "nothing", and no event when nothing changes
+    A.append(("defTextVector", (("device", "D1"), ("name", "V1"), ("state", "Ok"), ("perm", "rw")), None, (("defText", (("name", "a"),), None), ("defText", (("name", "b"),), "t1"))))
+    A.append(setmsg("D1", "V1", "Text", (("a", None),)))
+    A.append(setmsg("D1", "V1", "Text", (("b", None),)))
     # the same element named twice in one update
     A.append(setmsg("D1", "V1", "Text", (("a", "t2"), ("a", "t1"))))
     A.append(setmsg("D1", "V1", "Number", (("a", "2.5"), ("b", "1"), ("a", "1"))))
